@@ -310,6 +310,11 @@ def model_expr(e: Any, scope: set) -> str:
         return f"list {len(e[1])} " + " ".join(model_expr(x, scope) for x in e[1])
     if k == "idx":
         return f"idx {model_expr(e[1], scope)} {model_expr(e[2], scope)}"
+    if k == "sel":
+        # `selectI` (member_dot: `e["f"]`) vs. `selectC` (`e.get('f')`)
+        if not re.fullmatch(r"[A-Za-z_][A-Za-z0-9_]*", e[2]):
+            raise NotModelled("field")
+        return f"sel {model_expr(e[1], scope)} {e[2]}"
     if k == "call":
         if e[1] != "size":
             raise NotModelled("call " + e[1])
@@ -362,8 +367,10 @@ def syntax_expr(e: Any) -> str:
     raise NotModelled(k)
 
 
-def model_env() -> str:
-    return f"{len(MODEL_VARS)} " + " ".join(f"{n} {v}" for n, v in MODEL_VARS.items())
+def model_env(extra: Optional[Dict[str, str]] = None) -> str:
+    vs = dict(MODEL_VARS)
+    vs.update(extra or {})
+    return f"{len(vs)} " + " ".join(f"{n} {v}" for n, v in vs.items())
 
 
 # prim pool (model values): token, python constructor
@@ -489,6 +496,9 @@ class C03(Prop):
             "ones; identifier spellings (Python keywords, soft keywords, CEL reserved words, builtins, dunder names) as variable and "
             "macro variable; activations with dotted names (namespaces) and missing members in absorbing contexts; histories: one "
             "Environment, programs built once, evaluated over sequences of activations binding different variable sets. "
+            "Round 3: field selection on every kind of container (map variable, literal, nested, list element, JSON-converted, "
+            "dyn, ?:, message, namespace of dotted names) x every kind of member value (null, false, 0, 0u, 0.0, NaN, '', b'', [], "
+            "{}, zero duration, epoch, ordinary ones, missing) x 22 contexts. "
             "non-trivial = distinct expression "
             "containing a short-circuit operator, macro or has(), or with an error outcome on either runner")
 
@@ -529,6 +539,8 @@ class C03(Prop):
         cases += name_cases(rng, quick)
         cases += dotted_cases(rng, quick)
         cases += hist_cases(rng, quick)
+        # (d5) member access: every container kind x every kind of member value (null / false / zero / empty / missing)
+        cases += select_cases(rng, quick)
         # (e) primitives on the model's pool (driver fidelity + laws)
         prims = []
         for op, (_fn, ar) in PRIM_OPS.items():
@@ -625,13 +637,16 @@ class C03(Prop):
             return None
         if c["kind"] == "prim":
             return f"P {c['op']} {len(c['args'])} " + " ".join(PRIM_POOL[i][0] for i in c["args"])
-        if c["kind"] == "text" and c.get("binds") != "std" and c.get("binds"):
+        extra: Dict[str, str] = {}
+        if c["kind"] == "text" and str(c.get("stream", "")).startswith("select:"):
+            extra = SEL_MODEL_VARS          # the member-access stream binds maps the driver can represent
+        elif c["kind"] == "text" and c.get("binds") != "std" and c.get("binds"):
             return None
         if c.get("package"):
             return None
         a = self._ast(c)
         try:
-            return f"X {model_env()} {model_expr(a, set())}"
+            return f"X {model_env(extra)} {model_expr(a, set(extra))}"
         except NotModelled:
             return None
 
@@ -646,9 +661,10 @@ class C03(Prop):
         if i == "TIMEOUT" or k == "TIMEOUT":
             return impl
         mi, mk = mm.group(1), mm.group(2)
-        # the model has no say where a primitive outside its concrete fragment was reached
-        ei = i if mi == "skip" else mi
-        ek = k if mk == "skip" else mk
+        # the model has no say where a primitive outside its concrete fragment was reached, nor on a result that
+        # holds a map / a value of a kind the driver does not render (`map:?`, `?other`)
+        ei = i if (mi == "skip" or "?" in mi) else mi
+        ek = k if (mk == "skip" or "?" in mk) else mk
         # the model collapses every error to `err`; the implementation's escaping classes are C04's subject
         if ei == "err" and not is_value(i):
             ei = i
@@ -1127,6 +1143,9 @@ SEL_VALUES: Dict[str, Any] = {
     "t0": (_CT + "TimestampType('1970-01-01T00:00:00Z')", "timestamp('1970-01-01T00:00:00Z')", None),
 }
 SEL_MISSING = "nope"          # a member no container has
+# the same values for the Lean driver (`o <n>` = a value of a kind outside its concrete fragment)
+SEL_MODEL_TOKENS = {"nul": "n", "bf": "b 0", "bt": "b 1", "iz": "i 0", "ip": "i 7", "uz": "o 1", "dz": "o 2", "dn": "o 3", "se": "s _",
+                    "sx": "s x", "be": "o 4", "le": "l 0", "ln": "l 1 n", "me": "m 0", "mn": "m 1 s k n", "d0": "o 5", "t0": "o 6"}
 
 
 def _sel_map_ctor(names: List[str]) -> str:
@@ -1139,15 +1158,27 @@ def sel_binds() -> Dict[str, str]:
     b = {"sm": _sel_map_ctor(names),
          "sn": _CT + "MapType({" + _CT + "StringType('inner'): " + _sel_map_ctor(names) + "})",
          "sl": _CT + "ListType([" + _sel_map_ctor(names) + "])",
+         "smsg": _CT + "MessageType(" + _sel_map_ctor(names) + ")",
          "sj": "celpy.json_to_cel(__import__('json').loads('{" + ", ".join(f'"{n}": {SEL_VALUES[n][2]}' for n in jnames) + "}'))"}
     for n in names:
         b["sns." + n] = SEL_VALUES[n][0]          # a namespace of dotted activation names
     return b
 
 
+def _sel_model_map(names: List[str]) -> str:
+    return f"m {len(names)} " + " ".join(f"s {n} {SEL_MODEL_TOKENS[n]}" for n in names)
+
+
+# bindings of the stream the driver can represent (not: the message object, the namespace — `selectI`/`selectC` model maps)
+SEL_MODEL_VARS = {"sm": _sel_model_map(list(SEL_VALUES)),
+                  "sn": "m 1 s inner " + _sel_model_map(list(SEL_VALUES)),
+                  "sl": "l 1 " + _sel_model_map(list(SEL_VALUES)),
+                  "sj": _sel_model_map([n for n in SEL_VALUES if SEL_VALUES[n][2] is not None]),
+                  "bt_": "b 1"}
+
 # how the container is reached (@F = the selected field: literal maps hold that one entry and an ordinary one)
 SEL_CONTAINERS = {"var": "sm", "nested": "sn.inner", "elem": "sl[0]", "json": "sj", "dyn": "dyn(sm)", "cond": "(bt_ ? sm : sn)",
-                  "lit": "{'@F': @V, 'other': 1}", "ns": "sns"}
+                  "msg": "smsg", "lit": "{'@F': @V, 'other': 1}", "ns": "sns"}
 SEL_TEMPLATES = ["@M.@F", "@M.@F == null", "@M.@F == @M.@F", "[@M.@F]", "{'k': @M.@F}", "@M.@F == null ? 'null' : 'other'",
                  "true || @M.@F == 1", "@M.@F == 1 || true", "@M.@F == null && true", "false || @M.@F == null",
                  "[@M].exists(e, e.@F == null)", "[@M, @M].map(e, e.@F)", "[@M].filter(e, e.@F == e.@F)", "[1, 2].all(i, @M.@F == null || i > 0)",
